@@ -14,7 +14,8 @@ package main
 //             `cache.direction ==/!= directionX`, `dir ==/!= directionX`, `cached`, `!cached`.
 //   decision: the `switch negotiation.CacheState` that follows `unlock := t.cachedMutex.Lock(qKey)`;
 //             nested switches on negotiation.CacheState / negotiation.CacheDirection, ifs as above,
-//             `cache, cached = t.cachedConnections.Load(qKey)` (re-load), `fresh.quic.CloseWithError(…)`,
+//             `cache, cached = t.cachedConnections.Load(qKey)` (re-load; also as the init statement of an if:
+//             `if cache, cached = t.cachedConnections.Load(qKey); <cond> {…}`), `fresh.quic.CloseWithError(…)`,
 //             `cache.quic.CloseWithError(…)`, `t.cachedConnections.Store(qKey, fresh|cache)`,
 //             `t.cachedConnections.Delete(qKey)`, `return <cache|fresh|nil>, <bool>, <nil|wrapReuseError(…)|other>`.
 //   reapPeer: `qKey := t.makeCachedKey(peer)`, `unlock := t.cachedMutex.Lock(qKey)` + `defer unlock()` (every cache
@@ -197,6 +198,16 @@ func c41B(b bool) string {
 	return "false"
 }
 
+// `cache, cached <=|:=> t.cachedConnections.Load(qKey)`
+func c41IsReload(x *ast.AssignStmt) bool {
+	if len(x.Lhs) == 2 && c41Sel(x.Lhs[0]) == "cache" && c41Sel(x.Lhs[1]) == "cached" && len(x.Rhs) == 1 {
+		if call, ok := x.Rhs[0].(*ast.CallExpr); ok && c41Sel(call.Fun) == "t.cachedConnections.Load" {
+			return len(call.Args) == 1 && c41Sel(call.Args[0]) == "qKey"
+		}
+	}
+	return false
+}
+
 // decision statements → tree
 func (c *c41Ctx) dec(stmts []ast.Stmt, acc c41Acc) *c41Node {
 	for i, s := range stmts {
@@ -205,12 +216,13 @@ func (c *c41Ctx) dec(stmts []ast.Stmt, acc c41Acc) *c41Node {
 		case *ast.EmptyStmt:
 			continue
 		case *ast.AssignStmt:
-			if len(x.Lhs) == 2 && c41Sel(x.Lhs[0]) == "cache" && c41Sel(x.Lhs[1]) == "cached" && len(x.Rhs) == 1 {
-				if call, ok := x.Rhs[0].(*ast.CallExpr); ok && c41Sel(call.Fun) == "t.cachedConnections.Load" {
-					acc.reloaded = true
-					acc.rcKnown = false
-					continue
+			if c41IsReload(x) {
+				if x.Tok != token.ASSIGN { // `:=` would declare new variables that shadow the snapshot's only up to the end of the block
+					c41Fail(c.fset, s, "re-load that declares new variables (:=)")
 				}
+				acc.reloaded = true
+				acc.rcKnown = false
+				continue
 			}
 			c41Fail(c.fset, s, "assignment")
 		case *ast.ExprStmt:
@@ -239,7 +251,15 @@ func (c *c41Ctx) dec(stmts []ast.Stmt, acc c41Acc) *c41Node {
 			continue
 		case *ast.IfStmt:
 			if x.Init != nil {
-				c41Fail(c.fset, s, "if with init")
+				// `if cache, cached = t.cachedConnections.Load(qKey); <cond> {…} else {…}`: the re-load as the init
+				// statement of the if. With `=` (no new variables) it is the statement followed by the plain if.
+				as, ok := x.Init.(*ast.AssignStmt)
+				if !ok || as.Tok != token.ASSIGN || !c41IsReload(as) {
+					c41Fail(c.fset, s, "if with an init statement other than the re-load `cache, cached = t.cachedConnections.Load(qKey)`")
+				}
+				plain := *x
+				plain.Init = nil
+				return c.dec(append([]ast.Stmt{as, &plain}, rest...), acc)
 			}
 			txt, fn := c.cond(x.Cond, acc.reloaded, acc.rcKnown)
 			thenAcc := acc
